@@ -65,6 +65,44 @@ def forward_scenario(rng):
     return {"canc": canc, "ops": ops}
 
 
+def paused_cancel_scenario(rng):
+    """cancel() of Deferreds that have fired but are paused by the application, and of targets of chainDeferred:
+    a fired Deferred whose current result is not a Deferred cancels nothing, whatever it once waited on or was chained
+    to; one whose result IS a Deferred forwards.  Built from: waits (callback returns an unfired / paused Deferred),
+    chainDeferred, pauses placed on waiting or fired Deferreds, firings, then cancels of every Deferred."""
+    nd = rng.randrange(3, 6)
+    canc = [K.rand_canc(rng) for _ in range(nd)]
+    ops = []
+    order = list(range(nd))
+    rng.shuffle(order)
+    for _ in range(rng.randrange(2, 5)):
+        a, b = rng.sample(order, 2)
+        r = rng.random()
+        if r < 0.35:
+            ops.append(["chain", a, b])
+        elif r < 0.8:
+            ops.append(["add", a, ["ret", ["D", b]], None if rng.random() < 0.7 else ["ret", ["D", b]]])
+        else:
+            ops.append(["add", a, rng.choice([["pass"], ["ret", ["I", 4]], ["raise", 1]]), None])
+    body = []
+    for d in order:
+        r = rng.random()
+        if r < 0.5:
+            body.append(["pause", d])
+        if rng.random() < 0.75:
+            body.append([rng.choice(["cb", "cb", "eb"]), d, rng.randrange(5)])
+    rng.shuffle(body)
+    ops += body
+    tail = [["cancel", d] for d in order if rng.random() < 0.7]
+    for d in order:
+        if rng.random() < 0.3:
+            tail.append(["unpause", d])
+        if rng.random() < 0.25:
+            tail.append([rng.choice(["cb", "eb"]), d, 6])
+    rng.shuffle(tail)
+    return {"canc": canc, "ops": ops + tail}
+
+
 def gen(rng, tier):
     cases = []
     base = "cexai"
@@ -112,12 +150,21 @@ def gen(rng, tier):
         nd = rng.randrange(1, 5)
         w = {"add": 3, "cb": 3, "eb": 2, "cancel": 3}   # no pause/unpause: independent of the C01 finding F1
         cases.append(K.rand_program(rng, nd, rng.randrange(3, 16), weights=w))
+    # cancel() of fired-but-paused Deferreds and of chainDeferred targets (nothing may be cancelled through a stale
+    # waiting / chaining relation)
+    for _ in range(900 if tier == "quick" else 12000):
+        cases.append(paused_cancel_scenario(rng))
+    wp = {"add": 3, "cb": 3, "eb": 2, "cancel": 3, "pause": 1.5, "unpause": 1.2}
+    for _ in range(500 if tier == "quick" else 8000):
+        cases.append(K.rand_program(rng, rng.randrange(2, 5), rng.randrange(4, 16), weights=wp))
     # callbacks that run kernel operations, incl. cancel() and late results, with all canceller kinds
     for _ in range(500 if tier == "quick" else 8000):
-        cases.append(K.rand_script_program(rng, rng.randrange(1, 5), rng.randrange(2, 14), cancellers=True, pauses=False))
+        cases.append(K.rand_script_program(rng, rng.randrange(1, 5), rng.randrange(2, 14), cancellers=True, pauses=True))
     # how a failure is handed to errback must not matter: bare errback() inside an except block, errback(None),
     # errback(Failure) instead of errback(exc)
     cases += K.with_errback_forms(cases, rng, 0.25 if tier == "quick" else 0.12)
+    # Deferred debugging switched on / off in the middle of a history must not change anything observable
+    cases += K.with_debug_flips(cases, rng, 0.12 if tier == "quick" else 0.06)
     # the exact type of a Deferred must not matter: a sample once more with trivial-subclass instances
     cases += K.with_subclasses(cases, rng, 0.08 if tier == "quick" else 0.04)
     # Deferred debugging (defer.setDebugging(True)) must not change anything observable: a sample once more with it on
@@ -133,6 +180,19 @@ def corpus():
         history("acxii", ["none"], ["none"]),          # cancel forwarded to the inner Deferred, late inner results
         history("acxx", ["none"], ["raise", 1]),       # forwarded cancel whose canceller raises: may run again
         history("xx", ["cb", 7], ["none"]),            # canceller fires; second cancel is a no-op
+        # seeded C03-G (1): d2 paused, d1.chainDeferred(d2), d1 goes on to wait on the unfired P=d0; d2.cancel(): nothing
+        {"canc": [["nothing"], ["none"], ["none"]],
+         "ops": [["pause", 2], ["chain", 1, 2], ["add", 1, ["ret", ["D", 0]], None], ["cb", 1, 1], ["cancel", 2], ["cb", 0, 3]]},
+        # seeded C03-G (2): outer=2 waits on inner=1 and is paused by the application; inner fires, then waits on Q=0;
+        # outer.cancel() must do nothing (its result is plain)
+        {"canc": [["cb", 7], ["none"], ["none"]],
+         "ops": [["add", 2, ["ret", ["D", 1]], None], ["cb", 2, 1], ["pause", 2], ["add", 1, ["pass"], None],
+                 ["add", 1, ["ret", ["D", 0]], None], ["cb", 1, 2], ["cancel", 2], ["unpause", 2], ["cancel", 2]]},
+        # seeded C03-H: created and fired with debugging off, then on: the late results
+        {"canc": [["none"], ["none"]], "family": "two", "word": "",
+         "ops": list(PROBE) + [["cb", 1, 1], ["dbg", 999, 1], ["cb", 1, 2], ["eb", 1, 1]]},
+        {"canc": [["none"], ["none"]], "family": "two", "word": "",
+         "ops": list(PROBE) + [["cancel", 1], ["dbg", 999, 1], ["cb", 1, 2], ["cb", 1, 3], ["dbg", 999, 0], ["eb", 1, 1, "bare"]]},
         # seeded C03-F: after a canceller-less cancel the one late result arrives as an argument-less errback() inside
         # an except block: ignored; the next one raises
         {"canc": [["none"], ["none"]], "family": "two", "word": "",
@@ -338,7 +398,7 @@ SPEC = Spec(
          "that alphabet + {inner.cancel, inner.errback}; every history with a cancel of length <= 3 (8% of 4, 0.5% of 5; thorough <= 4, 10% of 5, 0.5% of 6) over the "
          "3-level alphabet {outer returns middle, middle returns pending, fire each, cancel each} x 3 (5) cancellers of "
          "the pending Deferred; 500 (10 000) forwarding scenarios (2-5 levels of fired-and-waiting Deferreds, cancel at "
-         "any level, late results); 25% (12%) of the cases containing an errback once more with the failure handed over as bare errback() inside an except block / errback(None) / errback(Failure); 12% (8%) of all these cases once more under defer.setDebugging(True); 1 200 (10 000) random programs of 3-15 operations over the "
+         "any level, late results); 25% (12%) of the cases containing an errback once more with the failure handed over as bare errback() inside an except block / errback(None) / errback(Failure); 900 (12 000) scenarios cancelling fired-but-paused Deferreds and chainDeferred targets, 500 (8 000) random programs with pause/unpause and cancel; 12% (6%) of all cases once more with defer.setDebugging flipped on/off in the middle; 12% (8%) of all these cases once more under defer.setDebugging(True); 1 200 (10 000) random programs of 3-15 operations over the "
          "kernel alphabet without pause/unpause on 1-4 Deferreds.  non-trivial = an AlreadyCalledError, a swallowed result, a "
          "canceller call or a CancelledError occurs; distinct by (case, observation)",
     trusted=["hand-written kernel model coq/Lib/DeferredK.v (tied by this correspondence run only)",
